@@ -80,6 +80,8 @@ type mgCmd struct {
 	Short                           int    // 1: the name ends after /nfd, 2: after the module (no verb)
 	Create                          string // faces/create: class of the request (Mgmt.tla)
 	Exp                             int    // rib/register: ExpirationPeriod in ms (0: absent)
+	Pers                            int    // faces/update: FacePersistency + 1 (0: absent)
+	Fl, Mk                          int    // faces/update with FlagsMask "both": Flags and Mask (0, 0: the historical 1, 1)
 }
 type mgConf struct {
 	Algo string
@@ -146,8 +148,13 @@ func mgmtExec(t *testing.T, w *traceWriter, conf mgConf, next func(e int) *mgCmd
 					if f.LocalURI().Scheme() != schemes[0] {
 						schemes = append(schemes, f.LocalURI().Scheme())
 					}
-					out = append(out, map[string]any{"id": f.FaceID(), "mtu": f.MTU(), "scope": int(f.Scope()), "schemes": schemes,
-						"uri": f.RemoteURI().String(), "luri": f.LocalURI().String()})
+					row := map[string]any{"id": f.FaceID(), "mtu": f.MTU(), "scope": int(f.Scope()), "schemes": schemes,
+						"uri": f.RemoteURI().String(), "luri": f.LocalURI().String(), "pers": int(f.Persistency()), "lf": false, "cm": false}
+					if nl, ok := f.(*face.NDNLPLinkService); ok {
+						op := nl.Options()
+						row["lf"], row["cm"] = op.IsConsumerControlledForwardingEnabled, op.IsCongestionMarkingEnabled
+					}
+					out = append(out, row)
 				}
 				sort.Slice(out, func(i, j int) bool { return out[i]["id"].(uint64) < out[j]["id"].(uint64) })
 				return out
@@ -273,7 +280,7 @@ func mgmtExec(t *testing.T, w *traceWriter, conf mgConf, next func(e int) *mgCmd
 							if e.Mtu != nil {
 								mtu = int(*e.Mtu)
 							}
-							dsFaces = append(dsFaces, map[string]any{"id": e.FaceId, "mtu": mtu})
+							dsFaces = append(dsFaces, map[string]any{"id": e.FaceId, "mtu": mtu, "pers": int(e.FacePersistency), "lf": e.Flags&1 != 0, "cm": e.Flags&4 != 0})
 							for _, id := range real {
 								if lsf := face.FaceTable.Get(id); lsf != nil && id == e.FaceId {
 									ctr = append(ctr, map[string]any{"id": id, "inb": lsf.NInBytes(), "outb": lsf.NOutBytes(), "dsIn": e.NInBytes, "dsOut": e.NOutBytes})
@@ -357,7 +364,7 @@ func mgmtExec(t *testing.T, w *traceWriter, conf mgConf, next func(e int) *mgCmd
 					break
 				}
 				c := map[string]any{"hasParams": g.HasParams, "hasName": g.HasName, "faceId": -1, "cost": g.Cost, "origin": g.Origin, "flags": g.Flags,
-					"strat": g.Strat, "stratName": g.StratName, "capacity": -1, "mtu": -1, "name": []string{}, "flagsMask": "none", "exp": -1, "create": g.Create}
+					"strat": g.Strat, "stratName": g.StratName, "capacity": -1, "mtu": -1, "name": []string{}, "flagsMask": "none", "exp": -1, "create": g.Create, "pers": g.Pers - 1, "fl": 1, "mk": 1}
 				args := &mgmtdef.ControlArgs{}
 				mod, verb := g.Mod, g.Verb
 				if g.HasName {
@@ -389,6 +396,9 @@ func mgmtExec(t *testing.T, w *traceWriter, conf mgConf, next func(e int) *mgCmd
 				}
 				if g.Flags >= 0 {
 					args.Flags = utils.IdPtr(uint64(g.Flags))
+				}
+				if g.Pers > 0 {
+					args.FacePersistency = utils.IdPtr(uint64(g.Pers - 1))
 				}
 				if g.Exp > 0 {
 					args.ExpirationPeriod = utils.IdPtr(uint64(g.Exp))
@@ -441,7 +451,12 @@ func mgmtExec(t *testing.T, w *traceWriter, conf mgConf, next func(e int) *mgCmd
 				}
 				switch g.FlagsMask {
 				case "both":
-					args.Flags, args.Mask = utils.IdPtr(uint64(1)), utils.IdPtr(uint64(1))
+					fl, mk := 1, 1
+					if g.Mk != 0 {
+						fl, mk = g.Fl, g.Mk
+					}
+					c["fl"], c["mk"] = fl, mk
+					args.Flags, args.Mask = utils.IdPtr(uint64(fl)), utils.IdPtr(uint64(mk))
 				case "flags":
 					args.Flags = utils.IdPtr(uint64(1))
 				case "mask":
@@ -628,7 +643,17 @@ func mgRandom(rng *rand.Rand) *mgCmd {
 			g.FaceRole = pickS("real1", "real1", "missing", "none")
 		}
 		g.FlagsMask = pickS("", "", "", "both", "flags", "mask")
+		if g.Verb == "update" && rng.Intn(2) == 0 {
+			g.Pers = 1 + rng.Intn(4) // persistent, on-demand, permanent, 3 (no such persistency)
+		}
+		if rng.Intn(2) == 0 {
+			fm := [][2]int{{1, 1}, {0, 1}, {4, 4}, {0, 4}, {5, 5}, {0, 5}, {1, 5}, {4, 5}, {7, 7}}[rng.Intn(9)]
+			g.Fl, g.Mk = fm[0], fm[1]
+		}
 		g.Mtu = pickS("0", "1", "50", "63", "64", "127", "128", "1500", "8800", "8801", "4294967296", "9223372036854775808", "18446744073709551615")
+		if g.Pers > 0 && rng.Intn(2) == 0 {
+			g.Mtu = ""
+		}
 	default:
 		if rng.Intn(8) == 0 {
 			g.HasName = false
@@ -765,6 +790,17 @@ func mgMatrix() []*mgCmd {
 			g2.FaceRole = pair[1]
 			out = append(out, g1, g2)
 		}
+	}
+	// face properties: a persistency the face can have (alone: applied; next to a refused field: nothing applied), one it cannot have,
+	// local fields / congestion marking switched on and off through Flags + Mask
+	for _, v := range []struct {
+		pers, fl, mk int
+		mtu, fm      string
+	}{{3, 0, 0, "", ""}, {1, 0, 0, "", ""}, {3, 0, 0, "10", ""}, {1, 0, 0, "1400", "flags"}, {2, 0, 0, "", ""}, {4, 0, 0, "", ""}, {3, 0, 0, "1300", ""},
+		{0, 1, 1, "", "both"}, {0, 0, 1, "", "both"}, {0, 4, 4, "", "both"}, {0, 0, 4, "", "both"}, {0, 5, 5, "", "both"}, {0, 1, 5, "", "both"}, {3, 5, 5, "20", "both"}} {
+		g := base("faces", "update")
+		g.Pers, g.Fl, g.Mk, g.Mtu, g.FlagsMask = v.pers, v.fl, v.mk, v.mtu, v.fm
+		out = append(out, g)
 	}
 	// a route with an expiration period, re-registered with another one and without one
 	for _, x := range []int{3000, 86400000, 0, 1} {
